@@ -206,6 +206,23 @@ func genPattern(r *sim.Rand, famHost string, famPath []string) string {
 	return p
 }
 
+// manySiblings: 51-58 endpoints that differ in one literal segment under a common parent (a catalogue of
+// resources declared one by one), plus now and then a parametric and a wildcard sibling.
+func manySiblings(r *sim.Rand) caseT {
+	c := caseT{Part: "random", OrderSeed: r.U64()}
+	n := r.Range(51, 58)
+	for i := 0; i < n; i++ {
+		c.Eps = append(c.Eps, ep{Method: "GET", URL: fmt.Sprintf("crowd.com/items/item%03d", i), Kind: 0})
+	}
+	if r.Chance(1, 3) {
+		c.Eps = append(c.Eps, ep{Method: "GET", URL: "crowd.com/items/{id}/details", Kind: 0})
+	}
+	if r.Chance(1, 3) {
+		c.Eps = append(c.Eps, ep{Method: "POST", URL: "crowd.com/*", Kind: 0})
+	}
+	return c
+}
+
 func genCase(r *sim.Rand) caseT {
 	n := r.Range(2, 6)
 	if r.Chance(1, 2) {
@@ -1034,6 +1051,9 @@ func main() {
 		var c caseT
 		if i < nExh {
 			c = space.at(i)
+		} else if i%199 == 0 {
+			c = manySiblings(args.CaseRand(i))
+			v.Count("cases_with_more_than_50_literal_siblings", 1)
 		} else {
 			c = genCase(args.CaseRand(i))
 		}
